@@ -2,6 +2,7 @@
 from . import common as C, chan
 
 MODULE = "AcqVerif.Props.C01"
+DRIVERS = ["acq_chan"]
 THEOREMS = []
 
 def run(ctx):
